@@ -151,6 +151,31 @@ def second_stop_returns_early():
     return []
 
 
+def stopped_before_start():
+    """an emitter that was told to stop before its thread ran (unschedule() racing with start(), which starts the emitters
+    without the registry lock) must not produce a single round of events when the thread is started after all"""
+    rounds = []
+
+    class Em(EventEmitter):
+        def queue_events(self, timeout):
+            rounds.append(time.monotonic())
+            self.queue_event(FileCreatedEvent("/late"))
+            self.stopped_event.wait(0.05)
+    import queue as _q
+    q = _q.Queue()
+    em = Em(q, ObservedWatch("/w", recursive=False), timeout=0.05)
+    em.stop()
+    em.start()
+    em.join(2)
+    out = []
+    if rounds or not q.empty():
+        out.append(f"an emitter stopped before its thread started still ran {len(rounds)} production round(s) and queued {q.qsize()} event(s) for its (unscheduled) watch")
+    if em.is_alive():
+        out.append("the emitter thread did not exit")
+        em.stop()
+    return out
+
+
 def slow_emitter(kind):
     gate = {"returned": None}
 
@@ -187,7 +212,7 @@ def slow_emitter(kind):
 def main():
     if REPLAY is not None:
         c = REPLAY
-        pr = cross_thread(c["op"]) if c["kind"] == "cross" else reentrant(c["op"]) if c["kind"] == "reentrant" else second_stop_returns_early() if c["kind"] == "second-stop" else slow_emitter(c["op"])
+        pr = cross_thread(c["op"]) if c["kind"] == "cross" else reentrant(c["op"]) if c["kind"] == "reentrant" else second_stop_returns_early() if c["kind"] == "second-stop" else stopped_before_start() if c["kind"] == "stopped-before-start" else slow_emitter(c["op"])
         replay_result(bool(pr), pr[:3])
     bat = Battery({"cross-thread removal": ["unschedule", "remove", "unschedule_all", "stop"], "park point": "right after the dispatcher's membership re-check", "slow emitter": ["unschedule", "unschedule_all", "stop"]})
     for kind in ("unschedule", "remove", "unschedule_all", "stop"):
@@ -200,6 +225,10 @@ def main():
         pr = reentrant(kind)
         if pr:
             bat.fail("C05.callback-after-reentrant-removal", pr[0], {"kind": "reentrant", "op": kind}, "BaseObserver.dispatch_events")
+    bat.case("stopped-before-start")
+    pr = stopped_before_start()
+    if pr:
+        bat.fail("C05.emitter-stopped-before-start-still-produces", pr[0], {"kind": "stopped-before-start", "op": "unschedule"}, "EventEmitter.run")
     bat.case("second-stop")
     pr = second_stop_returns_early()
     if pr:
